@@ -346,6 +346,13 @@ func runJob3(j job) string {
 	return "badjob"
 }
 
+func min3(a, b int) int {
+	if a < b {
+		return a
+	}
+	return b
+}
+
 // ---------------------------------------------------------------- corr
 func cmdCorr3(seed uint64, n int, exh int) {
 	r := hx.NewRng(seed)
@@ -500,6 +507,32 @@ func cmdSearch3(seed uint64, n int) {
 	for _, d := range genV3Inputs(r, n/40) {
 		jobs = append(jobs, job{kind: "X3", cfg: "-", data: d})
 		descs = append(descs, "entrypair:"+hx.Hex(d))
+	}
+	// file level: init segment + moof{mfhd, traf{tfhd, trun (every flag combination, 0..2 samples)[, senc]}} + mdat (compact / 16-byte header)
+	{
+		pp := getParts()
+		init := cat(pp.ftyp, moovChain(5, 0))
+		for fl := 0; fl < 64; fl++ {
+			flags := uint32(fl&1) | uint32(fl>>1&1)<<2 | uint32(fl>>2&1)<<8 | uint32(fl>>3&1)<<9 | uint32(fl>>4&1)<<10 | uint32(fl>>5&1)<<11
+			cnt := fl % 3
+			tb := trunBody(r, 0, flags, uint32(cnt), cnt)
+			if flags&1 != 0 { // a data offset that Encode accepts (non-zero)
+				copy(tb[8:], u32(100))
+			}
+			kids := [][]byte{tfhd(1), box("trun", tb)}
+			if fl%4 == 0 {
+				kids = append(kids, senc(uint32(cnt), r.Bytes(8*cnt, nil)))
+			}
+			moof := box("moof", mfhd(1), box("traf", kids...))
+			md := mdat(4)
+			if fl%2 == 1 {
+				md = lmdat(4)
+			}
+			for _, d := range [][]byte{cat(init, moof, md), cat(styp(), moof, md, moof, md)} {
+				jobs = append(jobs, job{kind: "F3", cfg: "RN0", data: d})
+				descs = append(descs, fmt.Sprintf("fragfile:trunflags=%x:%s", flags, hx.Hex(d[len(d)-min3(len(d), 120):])))
+			}
+		}
 	}
 	seen := map[string]bool{}
 	perBox := n / 300
